@@ -189,6 +189,8 @@ def gen(seed, tier):
         cases.append(G.more_senders_than_slots(r))
     for _ in range(60 * mul):
         cases.append(G.bam_occupancy_case(r))
+    for _ in range(30 * mul):
+        cases.append(G.own_bam_case(r))
     for _ in range(100 * mul):
         cases.append(G.restart_case(r))
     for _ in range(60 * mul):
@@ -212,7 +214,7 @@ def check(run, replay=None):
                        'with the interleaved frame streams of 1..8 well-formed senders (1..2 PGNs each: broadcast/addressable fast packet incl. mandatory, proprietary and application-list '
                        'PGNs, single frame incl. proprietary and application-list; payload lengths 0..223, every length once per family case) with loss patterns none/single/burst/tail/head, '
                        'duplicated and swapped frames, restarted messages, true-DLC last frames, DLC 0..7 on fast-packet PGNs with chosen garbage, announced lengths 224..255, polls at random '
-                       'points (<= 20 frames per poll), ticks around the 100 ms slot reuse (99/100/101), more senders than slots, ISO-TP announcements occupying slots, messages of one '
+                       'points (<= 20 frames per poll), ticks around the 100 ms slot reuse (99/100/101), more senders than slots, ISO-TP announcements occupying slots (from bystanders, and from the sender of a fast packet in the middle of it), messages of one '
                        'sender to different destinations; thorough adds all interleavings of 2 senders x 3 frames x all 64 drop patterns for 1,2,5 slots and for a shared PGN.  Oracle: '
                        'every delivery justified by frames fed before it, each frame used once, <= 223 bytes (all cases); deliveries = those of an unbounded reference receiver, in order '
                        '(cases within capacity).  Model and C++ (both scheduler builds) compared on every event and on the slot table.  non-trivial = case with at least one delivery')
